@@ -22,6 +22,7 @@ type c02Case struct {
 	Inj     *model.Injection `json:"inj,omitempty"`
 	Mode    string           `json:"mode"` // text noiter json yaml toml dryrun walk
 	Massive bool             `json:"massive,omitempty"`
+	IOKind  int              `json:"ioKind,omitempty"` // dynamic type of the reader (ops.Faults.IOKind: 0 plain, 3 *bytes.Reader, 5 *bufio.Reader, 7 *bytes.Buffer)
 }
 
 func init() { registerReplay("c02", c02Check) }
@@ -50,6 +51,7 @@ func c02Build(c c02Case) (doc string, row string, injected bool, ok bool) {
 
 func c02Run(c c02Case, doc string) *ops.Result {
 	cs := ops.NewCase("output", "md")
+	cs.Faults.IOKind = c.IOKind
 	cs.Doc = []byte(doc)
 	cs.Opts.Massive = c.Massive
 	switch c.Mode {
@@ -287,7 +289,7 @@ func c02Record(col *collector, c c02Case) {
 	} else {
 		cl = append(cl, "simple")
 	}
-	col.eval(nontrivial, hash64(doc, c.Mode, fmt.Sprint(c.Massive)), cl...)
+	col.eval(nontrivial, hash64(doc, c.Mode, fmt.Sprint(c.Massive, c.IOKind)), cl...)
 	col.sample(func() any { return map[string]any{"doc": doc, "inj": c.Inj, "mode": c.Mode, "massive": c.Massive} })
 }
 
@@ -363,6 +365,16 @@ func c02Gen() *rapid.Generator[c02Case] {
 		sp := genSpelling(f.HeadingOK()).Draw(t, "spelling")
 		c := c02Case{Forest: f, Sp: sp, Mode: rapid.SampledFrom(c02Modes).Draw(t, "mode")}
 		c.Massive = rapid.IntRange(0, 3).Draw(t, "massive") == 0
+		c.IOKind = rapid.SampledFrom([]int{0, 0, 0, 3, 5, 7}).Draw(t, "ioKind")
+		if rapid.IntRange(0, 24).Draw(t, "oneRow") == 0 {
+			// the whole input is ONE row, with or without a line terminator, just below the sizes at which buffers are
+			// typically sized (4 KiB, 64 KiB), read through a reader that can tell its length
+			n := rapid.SampledFrom([]int{100, 4000, 4090, 4094, 4095, 4096, 4100, 5000, 30000, 60000, 65000}).Draw(t, "rowLen")
+			c.Forest = model.Forest{{Name: strings.Repeat("r", n)}}
+			c.Sp = model.Spelling{Unit: 2, NoFinalN: rapid.Bool().Draw(t, "unterminated")}
+			c.IOKind = rapid.SampledFrom([]int{3, 7, 0}).Draw(t, "lenReader")
+			return c
+		}
 		if rapid.IntRange(0, 4).Draw(t, "inject") != 0 {
 			c.Inj = &model.Injection{
 				Class:   rapid.SampledFrom(model.InjClasses).Draw(t, "class"),
